@@ -14,11 +14,17 @@ EDIT_ALPHABET = list("$@.[]()?!*,:'\"\\=<>&|-+_aezAE019 \n\t") + ["\u000b", " "
                  # ARABIC-INDIC DIGIT THREE (Nd), CIRCLED DIGIT ONE (No)
                  "\u00b2", "\u0663", "\u2460",
                  # code points without a Unicode name: a C1 control and a private-use character
-                 "\u0085", "\ue000"]
+                 "\u0085", "\ue000",
+                 # NUL: a popular end-of-input sentinel
+                 "\x00"]
 
 FIX = os.path.join(os.path.dirname(os.path.dirname(os.path.dirname(os.path.abspath(__file__)))), "fixtures")
 
 OWN_CORPUS = [
+    # a negation whose parenthesised operand is itself a negation (valid; `!!` is not)
+    "$[?!(!@.a)]", "$[?!(!(@.a == 1))]", "$[?!((!@.a))]", "$[?@.x || !(!match(@.a, 'b'))]", "$[?!(@.b && !@.a)]",
+    "$[?!(!(!@.a))]", "$[?count(@[?!(!@.b)]) > 1]", "$[?((@.a))]", "$[?(!@.a)]", "$[?! (! @.a)]",
+
     "$", "$.a", "$..a", "$.*", "$..*", "$[*]", "$..[*]", "$['a']", '$["a"]', "$[0]", "$[-1]",
     "$[1:2]", "$[1:2:3]", "$[::]", "$[:]", "$[::-1]", "$[-3:-1:2]", "$[ 1 : 2 : 3 ]", "$['a','b']",
     "$[0,1]", "$['a',0,*,1:2]", "$.a.b", "$.a['b'][0]", "$ .a", "$.a [0]", "$..['a','b']", "$.a..b",
